@@ -9,7 +9,9 @@ REQUIRED_THEOREMS = ["record_roundtrip_dyn", "record_roundtrip_obs", "record_rou
                      "update_functional_obs_deleted", "update_functional_cnt_track", "update_functional_cnt_deleted",
                      "restart_restores", "restart_restores_after_crash", "observe_after_restart_greater",
                      "observe_after_restart_greater_crash", "observe_after_restart_greater_serial", "file_roundtrip_dyn",
-                     "file_roundtrip_obs", "file_roundtrip_cnt", "dyn_added_pinned_loses_entries"]
+                     "file_roundtrip_obs", "file_roundtrip_cnt", "dyn_added_pinned_loses_entries", "update_records_dyn_added",
+                     "update_records_dyn_deleted", "update_records_obs_added", "update_records_obs_deleted",
+                     "update_records_cnt_track", "update_records_cnt_deleted", "update_other_files_untouched"]
 RULE = ("one case = one history (save_freq 1..10; events: create / delete a dynamic resource, register / re-register / cancel an "
         "observation for one of 3 clients, notify, counter jump to the 24-bit wrap, clean restart) run through the real server "
         "(coap_handle_dgram, coap_resource_notify_observers, coap_persist_startup) with stdio+rename wrapped; for EVERY event "
